@@ -395,7 +395,7 @@ func init() {
 	ns := len(seeds)
 	nt := len(c01Tokens)
 	const layoutParts = 8
-	fw.Register(&fw.Prop{
+	register(&fw.Prop{
 		ID: "C13",
 		Rule: fmt.Sprintf("(i) %d seed programs (every statement and expression form) as token lists: every gap x its permitted deviations (two blanks, tab, CR, newline and comment+newline where DESIGN.md 3.18 allows a line break, ';' / blank lines / CRLF / a comment for statement separators) and every pair of such deviations (thorough: triples on the gaps of a line-break-only deviation set); ", ns) +
 			"oracle: same stdout, outcome and JSON output as the canonical layout (which the model confirms); (ii) every ordered pair and triple of the 66 token spellings written without blanks, and with one blank, through the lexer hook against a reference lexer written from 3.18 (segmentation, token class, lexical validity); " +
